@@ -49,6 +49,49 @@ def compare_views(ctx, inputs, views, fields, bad, stats):
                 bad("%s view of %s: %s" % (view, name, d), case)
 
 
+def compare_archives(ctx, inputs, views, fields, bad, stats):
+    """`ar` archives of the generated objects (one Dwarf per member): both views of the archive are the members'
+    views one after the other - also when a member in the middle has no unit with a DIE, no .debug_info at all,
+    or ends in partial units"""
+    byname = {name: (f, path) for name, f, path in inputs}
+    d = os.path.dirname(inputs[0][2])
+    noinfo = os.path.join(d, "noinfo.o")
+    with open(noinfo[:-2] + ".s", "w") as fh:
+        fh.write("\t.text\n\t.cfi_sections .debug_frame\nnf:\n\t.cfi_startproc\n\tnop\n\t.cfi_endproc\n")
+    subprocess.run(["as", "-o", noinfo, noinfo[:-2] + ".s"], check=True)
+    rnd = [n for n, _, _ in inputs if n.startswith("rand")]
+    plans = [["hollow", "only-empty", "chains"], ["imports", "hollow"], ["hollow", "imports"], ["unit-kinds", "empty-units", "using"],
+             ["hollow", "NOINFO", "repeated-names"], ["NOINFO", "hollow"], ["import-cu", "imports", "only-empty", "hollow"]]
+    if len(rnd) >= 3:
+        plans += [[rnd[0], "only-empty", rnd[1]], [rnd[2], "NOINFO", rnd[0], "imports", rnd[1]]]
+    for k, plan in enumerate(plans):
+        if any(n != "NOINFO" and n not in byname for n in plan):
+            continue
+        members = [(n, None, noinfo) if n == "NOINFO" else (n,) + byname[n] for n in plan]
+        ar = os.path.join(d, "members-%d.a" % k)
+        if os.path.exists(ar):
+            os.unlink(ar)
+        if subprocess.run(["ar", "rcS", ar] + [p for _, _, p in members]).returncode != 0:
+            continue
+        models = dwforest.model_rows([f for _, f, _ in members if f is not None])
+        mi = iter(models)
+        per = [next(mi) if f is not None else {"raw": [], "cooked": [], "rawunits": [], "cookedunits": []} for _, f, _ in members]
+        for view in views:
+            rows, units, err = dwforest.impl_rows(ar, view == "cooked")
+            stats["evaluations"] += 1
+            case = {"input": "archive of " + ", ".join(plan), "view": view, "file": ar, "members": [p for _, _, p in members]}
+            if err:
+                bad("the %s view of an archive of %s fails: %s" % (view, plan, err), case)
+                continue
+            want = [r for m in per for r in m[view]]
+            wu = [u for m in per for u in m["cookedunits" if view == "cooked" else "rawunits"]]
+            if units != wu:
+                bad("%s `unit` of an archive of %s lists the units at %s; the members store %s" % (view, plan, units, wu), case)
+            dd = dwforest.compare_rows(rows, want, fields)
+            if dd:
+                bad("%s view of an archive of %s: %s" % (view, plan, dd), case)
+
+
 def readelf_rows(path):
     """independent dumper: (offset, depth, tag name, [attribute names]) per DIE, units"""
     p = subprocess.run(["readelf", "--debug-dump=info", path], stdout=subprocess.PIPE, stderr=subprocess.DEVNULL)
